@@ -292,7 +292,7 @@ theorem eval_maskedShamt (h : Ctx xlen W ρ s w) (a : Nat) {k : Nat} (hk : 2 ^ k
     have h2 := pow_pos' k
     simp only [Tools.bitMaskOk, Bool.or_eq_true, decide_eq_true_eq]
     right; omega
-  rw [eval_maskBits _ _ _ _ h.W_le255 (by omega) hok (by omega), h.eval_rs2]
+  rw [eval_maskBits _ _ _ _ h.W_le255, h.eval_rs2]
   unfold Spec.mask
   rw [h.trunc_get, hk]
   exact h.trunc_of_lt (Nat.lt_of_lt_of_le (Nat.mod_lt _ (by rw [← hk]; exact pow_pos' k))
